@@ -131,7 +131,7 @@ def _chunk_class(n, chunk):
 def _v(codec, api, mode, cls, form, exp, got, **kw):
     sig = {"codec": codec, "api": api, "mode": mode, "class": cls}
     sig.update(kw)
-    return (sig, {"form": form[:40000] + ("..." if len(form) > 40000 else ""), "expected": show(exp), "observed": show(got)})
+    return (sig, {"form": form[:200000] + ("..." if len(form) > 200000 else ""), "expected": show(exp), "observed": show(got)})
 
 
 def _judge_b64(form, d, py, api, variant):
